@@ -123,6 +123,40 @@ PROPS = {
                            'or failed call; C19_count <= desired-min; C19_k8s_after_cloud / C19_scan_batches: Node deletions only after the whole batch was accepted, for both batches of a scan; C19_not_member_*: the error ends the scan and makes RunOnce fatal. '
                            'Tie: awsops (provider level) and hist (controller level) + monitors.',
                 level_note=LEVEL_NOTE),
+    'C13': dict(level='proof', module='EscProofs.P.C13',
+                streams=dict(quick=[('resources', ['-n', 3000]), ('arith', ['-n', 20000])],
+                             thorough=[('resources', ['-n', 200000]), ('arith', ['-n', 1000000])],
+                             search=[('resources', ['-n', 30000]), ('arith', ['-n', 100000])]),
+                aspects=['podTotal', 'lpMem', 'lpCPU', 'capTotal', 'laMem', 'laCPU', 'remaining', 'perm-invariance', 'pct-kind', 'pct-bits', 'panic'],
+                monitors=['C13'],
+                theorems=['Esc.P.C13_pod', 'Esc.P.C13_totals', 'Esc.P.C13_capacity', 'Esc.P.C13_perm_pods', 'Esc.P.C13_perm_nodes',
+                          'Esc.P.C13_nodeAvail_perm', 'Esc.P.largestPending_inv', 'Esc.P.C13_percent_exact', 'Esc.P.foldl_max_spec'],
+                technique='Lean 4 theorem (closed forms of the folds; permutation invariance via commutative digests and List.Perm.foldl_eq\') + bit-exact differential correspondence of calculators and percentages + metamorphic permutation monitor',
+                level_text='C13_pod/C13_totals/C13_capacity: request = sum over pods of max(sum containers, largest init)+overhead per resource, capacity = sum of allocatable; C13_perm_*: totals, capacity and the starve-test inputs are '
+                           'invariant under any permutation of pods and nodes; C13_percent_exact: 100*req/cap with exact arithmetic (float layer: bit-exact correspondence of the rne64 model with Go, see C05). '
+                           'Tie: resources stream (real calculators on generated pods/nodes in two orders) and arith stream (Float64bits equality).',
+                level_note=LEVEL_NOTE + ' Quantity parsing (resource.Quantity strings) is outside the model: the harness feeds integer milli-CPU / byte values.',
+                assumptions=['resource amounts are non-negative and sums stay within int64', 'quantities are whole millicores / whole bytes']),
+    'C14': dict(level='proof', module='EscProofs.P.C14',
+                streams=dict(quick=[('filters', [])], thorough=[('filters', [])], search=[('filters', [])]),
+                aspects=['affinity', 'default', 'match', 'bad-case'], monitors=[],
+                theorems=['Esc.P.C14_pod', 'Esc.P.C14_default', 'Esc.P.C14_node', 'Esc.P.C14_static', 'Esc.P.C14_required_terms', 'Esc.P.C14_view'],
+                technique='Lean 4 theorem (filter <-> documented rule, for all pods/nodes) + exhaustive small-scope differential correspondence with the real filter functions',
+                level_text='C14_pod / C14_default / C14_node: the three filters are equivalent to the documented attribution rules for every pod and node; C14_view: a group\'s view is exactly the filtered lists. '
+                           'Tie: filters stream enumerates exhaustively the small-scope universe (7 selectors x ~190 affinity shapes x 5 owner sets x 4 annotation sets = 141,820 pods, 9 label maps) through the real filter functions.',
+                level_note=LEVEL_NOTE, exhaustive=True),
+    'C15': dict(level='proof', module='EscProofs.P.C15',
+                streams=dict(quick=[('taintops', ['-n', 4000]), ('hist', ['-n', 300, '-scans', 10])],
+                             thorough=[('taintops', ['-n', 100000]), ('hist', ['-n', 15000, '-scans', 12])],
+                             search=[('taintops', ['-n', 20000]), ('hist', ['-n', 1500, '-scans', 12])]),
+                aspects=['journal', 'ok', 'time', 'age', 'updates', 'panic'], monitors=['C15'],
+                theorems=['Esc.P.C15_add', 'Esc.P.C15_add_idempotent', 'Esc.P.C15_delete', 'Esc.P.C15_no_restamp', 'Esc.P.C15_history',
+                          'Esc.P.swapRemoveFirst_perm'],
+                technique='Lean 4 theorem (exact object of every UPDATE relative to the preceding GET; swap-remove preserves the other taints as a multiset; no re-stamp along histories) + differential correspondence on complete UPDATE objects + monitor',
+                level_text='C15_add/C15_delete: the UPDATE object is the fetched object plus exactly the stamped escalator taint (effect or NoSchedule) on an object without one, or minus its first escalator taint, all other fields and taints preserved; '
+                           'C15_add_idempotent: an already tainted node gets no UPDATE; C15_no_restamp/C15_history: no write ever gives an already tainted node a different escalator taint. '
+                           'Tie: taintops (direct calls, stale views, odd taint values, faults) and hist; full objects compared (plus a digest of every unmodelled field); monitor on observed GET/UPDATE pairs.',
+                level_note=LEVEL_NOTE),
 }
 
 # diffs that are relevant whatever the property (the scan's overall result)
